@@ -10,6 +10,7 @@
 
 #include <fstream>
 #include <memory>
+#include <sys/resource.h>
 #include <sys/stat.h>
 
 static std::string g_outdir, g_scratch;
@@ -213,6 +214,13 @@ int main(int argc, char **argv) {
     g_scratch = a.get("scratch", g_outdir);
     g_only = a.geti("only", -1);
     g_shards = (int) a.geti("shards", 4);
+    // A process may hold few descriptors: a container that keeps one per construction (instead of releasing it once the
+    // file is mapped) makes later constructions of the SAME run fail, which the trace specification rejects (C12: every
+    // order of constructions yields containers that hold the sequence), instead of only after thousands of executions.
+    {
+        struct rlimit rl;
+        if (getrlimit(RLIMIT_NOFILE, &rl) == 0) { rl.rlim_cur = std::min<rlim_t>(rl.rlim_cur, 48 + (rlim_t) g_shards); setrlimit(RLIMIT_NOFILE, &rl); }
+    }
     Plan p{a.get("tier", "quick"), (uint64_t) a.geti("seed", 1), {}};
     std::string orders = a.get("orders", "");
     if (!orders.empty()) {   // one order per line: digits 0..4
